@@ -132,7 +132,7 @@ pub fn check_list(c: &ListCase) -> CheckResult {
 }
 pub const LIST_CLASSES: &[&str] = &["overlap_with_different_weights", "overlap", "contains_spaces", "empty_list", "six_plus_tokens"];
 
-pub const LITERALS_QUICK: &[Option<&str>] = &[None, Some("1"), Some("0"), Some("0.5")];
+pub const LITERALS_QUICK: &[Option<&str>] = &[None, Some("1"), Some("0"), Some("0.5"), Some("0.00000000000000000000000007038531")];
 pub const LITERALS_THOROUGH: &[Option<&str>] = &[
     None,
     Some("1"),
@@ -148,6 +148,9 @@ pub const LITERALS_THOROUGH: &[Option<&str>] = &[
     Some("1.000"),
     Some("0.0"),
     Some("0.7"),
+    Some("0.00000000000000000000000007038531"),
+    Some("0.100000001490116119384765625"),
+    Some("0.1000000000000000055511151231257827"),
 ];
 
 pub fn weight_literal() -> impl Strategy<Value = Option<String>> {
@@ -189,6 +192,49 @@ pub fn token_from(palette: &[u8], shape: u8, a: u8, b: u8, c: u8, s1: u8, s2: u8
     }
 }
 
+/// tokens that together cover all 1326 combos ("100% of hands", the usual starting point of a
+/// range that is then carved with overriding tokens): 22+ and X2s+/X2o+ for every high card, or
+/// all 169 single rank pairs
+pub fn full_cover(fine: bool) -> Vec<Tok> {
+    let mut v = vec![];
+    if fine {
+        for r in 0..13 {
+            v.push(Tok::Pocket(r));
+        }
+        for h in 0..12u8 {
+            for k in (h + 1)..13 {
+                v.push(Tok::Pair(true, h, k));
+                v.push(Tok::Pair(false, k, h));
+            }
+        }
+    } else {
+        v.push(Tok::PocketPlus(12));
+        for h in 0..12u8 {
+            v.push(Tok::PairPlus(true, h, 12));
+            v.push(Tok::PairPlus(false, h, 12));
+        }
+    }
+    v
+}
+
+/// a list that first covers every combo (shuffled cover tokens with one weight) and then
+/// overrides parts of it
+pub fn covered_list_strategy() -> impl Strategy<Value = ListCase> {
+    (any::<bool>(), weight_literal(), any::<u64>(), list_strategy(8), proptest::bool::weighted(0.2)).prop_map(|(fine, w, seed, rest, fine2)| {
+        let mut cover = full_cover(fine && fine2);
+        let mut x = crate::runner::mix64(seed);
+        for i in (1..cover.len()).rev() {
+            x = crate::runner::mix64(x);
+            cover.swap(i, (x % (i as u64 + 1)) as usize);
+        }
+        let mut toks: Vec<WTok> = cover.into_iter().map(|t| WTok { tok: t, weight: w.clone() }).collect();
+        let mut spaces = vec![0u8; toks.len()];
+        toks.extend(rest.toks);
+        spaces.extend(rest.spaces);
+        ListCase { toks, spaces }
+    })
+}
+
 pub fn list_strategy(max: usize) -> impl Strategy<Value = ListCase> {
     (
         proptest::sample::subsequence((0..13u8).collect::<Vec<_>>(), 3..=6),
@@ -203,7 +249,7 @@ pub fn list_strategy(max: usize) -> impl Strategy<Value = ListCase> {
 }
 
 pub fn run(ctx: &mut Ctx) {
-    ctx.rule = "(1) exhaustive: all 3,796 well-formed tokens (13 pockets, 13 XX+, 78 pocket spans, 312 rank pairs in either rank order, 156 XYs+/XYo+, 572 kicker spans, 2,652 ordered card pairs) x weight literals (quick 4, thorough 14) - the token must parse and expand to exactly the model's combo set, each once, at the literal's value, also as a one-token range. (2) proptest token lists of 0-12 (thorough 0-40) tokens over a 3-6 rank palette (frequent overlaps), generated weight literals 0.d{1,12} / 1.0.. , optional spaces around commas and at the ends, the empty and all-space strings; the parsed range must equal the model map (sequential insert, later wins), weights bit-identical. Non-trivial: tokens all; lists with >= 1 combo covered by two tokens of different weight; distinct by text.".into();
+    ctx.rule = "(1) exhaustive: all 3,796 well-formed tokens (13 pockets, 13 XX+, 78 pocket spans, 312 rank pairs in either rank order, 156 XYs+/XYo+, 572 kicker spans, 2,652 ordered card pairs) x weight literals (quick 5, thorough 17, among them the decimal text of the f32 that is sensitive to double rounding through f64) - the token must parse and expand to exactly the model's combo set, each once, at the literal's value, also as a one-token range. (2) proptest token lists of 0-12 (thorough 0-40) tokens, plus long lists of up to 320 tokens and lists that first cover all 1326 combos (22+,X2s+,X2o+ for every high card, or all 169 rank pairs, shuffled) and then override parts of them, over a 3-6 rank palette (frequent overlaps), generated weight literals 0.d{1,12} / 1.0.. , optional spaces around commas and at the ends, the empty and all-space strings; the parsed range must equal the model map (sequential insert, later wins), weights bit-identical. Non-trivial: tokens all; lists with >= 1 combo covered by two tokens of different weight; distinct by text.".into();
     ctx.assumptions = vec![
         "the literal's value is std's str::parse::<f32>() of the literal".into(),
         "spaces only around commas and at the ends; weights only from literals whose value is in [0,1]".into(),
@@ -222,6 +268,11 @@ pub fn run(ctx: &mut Ctx) {
     let cases = ctx.tier.pick(12_000, 150_000);
     let max = ctx.tier.pick(12, 40);
     ctx.run_random_brief(StreamCfg::new("token_lists", LIST_CLASSES, cases).shrink(400), move || list_strategy(max), check_list, |c| json!(list_text(c)));
+    let cases_long = ctx.tier.pick(160, 3_000);
+    ctx.run_random_brief(StreamCfg::new("long_token_lists", LIST_CLASSES, cases_long).shrink(200), move || list_strategy(320), check_list, |c| json!(format!("{} tokens: {}...", c.toks.len(), list_text(c).chars().take(60).collect::<String>())));
+    let cases_cov = ctx.tier.pick(400, 8_000);
+    ctx.run_random_brief(StreamCfg::new("full_cover_then_overrides", LIST_CLASSES, cases_cov).shrink(200), covered_list_strategy, check_list, |c| json!(format!("{} tokens: {}...", c.toks.len(), list_text(c).chars().take(70).collect::<String>())));
+    ctx.require_class("full_cover_then_overrides", "overlap_with_different_weights", cases_cov / 3);
     ctx.require_class("token_lists", "overlap_with_different_weights", cases / 4);
     ctx.require_class("token_lists", "contains_spaces", cases / 4);
     ctx.require_class("token_lists", "empty_list", cases / 100);
@@ -233,7 +284,7 @@ pub fn run(ctx: &mut Ctx) {
 
 pub fn replay(stream: &str, path: &str, case: &Value) -> i32 {
     match stream {
-        "token_lists" => replay_case::<ListCase>("C05", path, case, check_list),
+        "token_lists" | "long_token_lists" | "full_cover_then_overrides" => replay_case::<ListCase>("C05", path, case, check_list),
         _ => replay_case::<WTok>("C05", path, case, check_token),
     }
 }
